@@ -6,14 +6,18 @@
 (* the file.  The rule that makes it terminate is the one the repaired     *)
 (* reader enforces: an index entry may only lead to a block that lies      *)
 (* BEFORE the index block holding it (children are written before their    *)
-(* parents).  RuleOn = FALSE is the pinned reader, which loops.            *)
+(* parents) - AND, since the descent may roll over from a child index      *)
+(* block into the index blocks that follow it, that the blocks from which  *)
+(* entries are taken move backwards as well (found by the thorough tier of *)
+(* C18, D22: the first rule alone still loops).  RuleOn = FALSE is the     *)
+(* pinned reader; RuleOn alone is the reader before the D22 repair.        *)
 (*                                                                         *)
 (* Every graph over N blocks is an initial state: a block is a data block  *)
 (* ("d") or an index block with one or two child positions in 0..N+1.      *)
 (***************************************************************************)
 EXTENDS Naturals, Sequences, FiniteSets, TLC
 
-CONSTANTS N, RuleOn
+CONSTANTS N, RuleOn, RollRuleOn
 
 VARIABLE g
 Blocks == {<<"d">>} \cup {<<"i", a>> : a \in 0..(N + 1)} \cup {<<"i", a, b>> : a \in 0..(N + 1), b \in 0..(N + 1)}
@@ -21,26 +25,29 @@ Init == g \in [1..N -> Blocks]
 Next == UNCHANGED g
 Spec == Init /\ [][Next]_g
 
-(* one step of the descent from index block o through its k-th entry: the next INDEX block, or 0 when the
-   descent ends there (a data block was reached, or the reader reports a format error) *)
-StepTo(o, k) ==
-  LET c == g[o][k + 1] IN
-  IF RuleOn /\ c >= o THEN 0
-  ELSE IF c < 1 \/ c > N THEN 0           \* outside the file: no block reader
-  ELSE IF g[c][1] = "d" THEN 0
-  ELSE c
-
-IndexBlocks == {o \in 1..N : g[o][1] = "i"}
+IsIndex(o) == o \in 1..N /\ g[o][1] = "i"
 Entries(o) == 1..(Len(g[o]) - 1)
-Succ(o) == {StepTo(o, k) : k \in Entries(o)} \ {0}
 
-(* the index blocks reachable from a set of index blocks (any entry: the key decides which one is taken) *)
+(* The descent takes an entry from index block o; the entry leads to block c.  In c the key is sought; the next entry is  *)
+(* taken from c itself - or, when the key lies behind c's last entry, Next ROLLS OVER into the blocks that follow c in the *)
+(* file as long as they are index blocks (tableIter.Next / nextBlock) and takes the first entry found there.               *)
+(* Rule 1 (RuleOn):     an entry must lead to a block before the block holding it.                                       *)
+(* Rule 2 (RollRuleOn): the blocks from which entries are taken have strictly decreasing positions (D22).                 *)
+RECURSIVE Roll(_)
+Roll(c) == IF IsIndex(c) THEN {c} \cup Roll(c + 1) ELSE {}
+Succ(o) ==
+  UNION {LET c == g[o][k + 1] IN
+         IF (RuleOn /\ c >= o) \/ ~IsIndex(c) THEN {}
+         ELSE {o2 \in Roll(c) : ~RollRuleOn \/ o2 < o}
+        : k \in Entries(o)}
+
+(* the index blocks from which entries can be taken, starting from a set of them *)
 RECURSIVE Reach(_)
 Reach(seen) ==
   LET new == UNION {Succ(o) : o \in seen} \ seen
   IN IF new = {} THEN seen ELSE Reach(seen \cup new)
 
-(* a descent can run forever iff some index block can reach itself *)
-Loops == \E s \in IndexBlocks : Succ(s) # {} /\ s \in Reach(Succ(s))
+(* a descent can run for ever iff some index block can be reached from itself *)
+Loops == \E s \in 1..N : IsIndex(s) /\ Succ(s) # {} /\ s \in Reach(Succ(s))
 C18_DescentTerminates == ~Loops
 =============================================================================
